@@ -1,6 +1,6 @@
 (* Proofs/Parser_rt_cor.v — corollaries of the round trip *)
 From RJ Require Import Base.Outcome Model.Token Model.Ast Model.Parser Model.Print
-  Proofs.Parser_proofs Proofs.Parser_rt Proofs.Parser_rt2 Proofs.Parser_rt3.
+  Proofs.Parser_proofs Proofs.Parser_rt Proofs.Parser_rt2 Proofs.Parser_rt3 Proofs.Parser_rt4 Proofs.Parser_rt5.
 From Coq Require Import Lia.
 Local Open Scope list_scope.
 Local Open Scope N_scope.
@@ -85,11 +85,85 @@ Proof.
     split; [apply (forallb_map_in pcore wp_param fp_param); [intros p Hin Hp; apply (Hi p Hin Hp)|exact Hl]|].
     rewrite !map_map. apply map_ext_in. intros p Hin. apply Hi; [exact Hin|].
     rewrite forallb_forall in Hl. apply (Hl p Hin). }
+  assert (HBC : forall x, (esize x < n)%nat -> core_expr x = true ->
+            wpx 0 true (full_paren x) = true /\ strip_paren (strip_spans (full_paren x)) = strip_paren (strip_spans x)).
+  { intros x Hx Hcx. destruct (IH x Hx Hcx) as (_ & B & C). split; [apply B|exact C]. }
+  assert (Hbind : forall b, (bind_size b <= n)%nat -> core_bind b = true ->
+            wp_bind (fp_bind b) = true /\ unp_bind (strip_bind (fp_bind b)) = unp_bind (strip_bind b)).
+  { intros [nm ps v] Hs Hb. cbn [bind_size core_bind fp_bind wp_bind strip_bind unp_bind] in *.
+    apply andb_true_iff in Hb as [Hps Hv]. destruct (HBC v ltac:(lia) Hv) as (B & C).
+    destruct ps as [[l psp]|].
+    - destruct (Hpars l ltac:(lia) Hps) as (_ & P2 & P3). rewrite P2, P3, B, C. split; reflexivity.
+    - rewrite B, C. split; reflexivity. }
+  assert (Hbinds : forall l, (lsum bind_size l <= n)%nat -> forallb core_bind l = true ->
+            forallb wp_bind (map fp_bind l) = true /\
+            map unp_bind (map strip_bind (map fp_bind l)) = map unp_bind (map strip_bind l)).
+  { intros l Hs Hl.
+    assert (Hi : forall b, In b l -> core_bind b = true ->
+              wp_bind (fp_bind b) = true /\ unp_bind (strip_bind (fp_bind b)) = unp_bind (strip_bind b)).
+    { intros b Hin Hb. pose proof (lsum_in bind_size l b Hin). apply Hbind; [lia|exact Hb]. }
+    split; [apply (forallb_map_in core_bind wp_bind fp_bind); [intros b Hin Hb; apply (Hi b Hin Hb)|exact Hl]|].
+    rewrite !map_map. apply map_ext_in. intros b Hin. apply Hi; [exact Hin|].
+    rewrite forallb_forall in Hl. apply (Hl b Hin). }
+  assert (Hspecs : forall l, (lsum spec_size l <= n)%nat -> forallb score l = true ->
+            forallb wp_spec (map fp_spec l) = true /\
+            map unp_spec (map strip_spec (map fp_spec l)) = map unp_spec (map strip_spec l)).
+  { intros l Hs Hl.
+    assert (Hi : forall sc, In sc l -> score sc = true ->
+              wp_spec (fp_spec sc) = true /\ unp_spec (strip_spec (fp_spec sc)) = unp_spec (strip_spec sc)).
+    { intros sc Hin Hsc. pose proof (lsum_in spec_size l sc Hin) as Hle.
+      destruct sc as [v y|y]; cbn [score fp_spec wp_spec strip_spec unp_spec spec_size] in *;
+        destruct (HBC y ltac:(lia) Hsc) as (B & C); rewrite B, C; split; reflexivity. }
+    split; [apply (forallb_map_in score wp_spec fp_spec); [intros b Hin Hb; apply (Hi b Hin Hb)|exact Hl]|].
+    rewrite !map_map. apply map_ext_in. intros b Hin. apply Hi; [exact Hin|].
+    rewrite forallb_forall in Hl. apply (Hl b Hin). }
+  assert (Hobj : forall o, (obj_size o <= n)%nat -> core_obj o = true ->
+            wp_obj (fp_obj o) = true /\ unp_obj (strip_obj (fp_obj o)) = unp_obj (strip_obj o)).
+  { assert (Hfname : forall nn, (fname_size nn <= n)%nat -> core_fname nn = true ->
+              wp_fname (fp_fname nn) = true /\ unp_fname (strip_fname (fp_fname nn)) = unp_fname (strip_fname nn)).
+    { intros [i|x sp|y sp] Hs Hf; cbn [fname_size core_fname fp_fname wp_fname strip_fname unp_fname] in *;
+        try (split; reflexivity). destruct (HBC y ltac:(lia) Hf) as (B & C). rewrite B, C. split; reflexivity. }
+    assert (Hfield : forall f, (field_size f <= n)%nat -> core_field f = true ->
+              wp_field (fp_field f) = true /\ unp_field (strip_field (fp_field f)) = unp_field (strip_field f)).
+    { intros [nn plus vis v|nn ps psp vis v] Hs Hf; cbn [field_size core_field fp_field wp_field strip_field unp_field] in *.
+      - apply andb_true_iff in Hf as [Hn Hv]. destruct (Hfname nn ltac:(lia) Hn) as (B1 & C1).
+        destruct (HBC v ltac:(lia) Hv) as (B2 & C2). rewrite B1, C1, B2, C2. split; reflexivity.
+      - apply andb_true_iff in Hf as [Hf Hv]. apply andb_true_iff in Hf as [Hn Hps].
+        destruct (Hfname nn ltac:(lia) Hn) as (B1 & C1). destruct (HBC v ltac:(lia) Hv) as (B2 & C2).
+        destruct (Hpars ps ltac:(lia) Hps) as (_ & P2 & P3). rewrite B1, C1, B2, C2, P2, P3. split; reflexivity. }
+    assert (Hmember : forall m, (member_size m <= n)%nat -> core_member m = true ->
+              wp_member (fp_member m) = true /\ unp_member (strip_member (fp_member m)) = unp_member (strip_member m)).
+    { intros [b|a|f] Hs Hm; cbn [member_size core_member fp_member wp_member strip_member unp_member] in *.
+      - destruct (Hbind b ltac:(lia) Hm) as (B & C). rewrite B, C. split; reflexivity.
+      - destruct a as [asp c m']. cbn [assert_size fp_assert wp_assert strip_assert unp_assert] in *.
+        apply andb_true_iff in Hm as [Hc' Hm'].
+        destruct (HBC c ltac:(lia) Hc') as (B1 & C1). destruct (Hopt m' ltac:(lia) Hm') as (_ & B2 & C2).
+        rewrite B1, C1, B2, C2. split; reflexivity.
+      - destruct (Hfield f ltac:(lia) Hm) as (B & C). rewrite B, C. split; reflexivity. }
+    intros [ms|l1 name plus body l2 specs] Hs Ho; cbn [obj_size core_obj fp_obj wp_obj strip_obj unp_obj] in *.
+    - assert (Hi : forall m, In m ms -> core_member m = true ->
+                wp_member (fp_member m) = true /\ unp_member (strip_member (fp_member m)) = unp_member (strip_member m)).
+      { intros m Hin Hm. pose proof (lsum_in member_size ms m Hin). apply Hmember; [lia|exact Hm]. }
+      split; [apply (forallb_map_in core_member wp_member fp_member); [intros m Hin Hm; apply (Hi m Hin Hm)|exact Ho]|].
+      f_equal. rewrite !map_map. apply map_ext_in. intros m Hin. apply Hi; [exact Hin|].
+      rewrite forallb_forall in Ho. apply (Ho m Hin).
+    - split_and Ho.
+      destruct (Hbinds l1 ltac:(lia) Ho) as (B1 & C1). destruct (Hbinds l2 ltac:(lia) Hc2) as (B2 & C2).
+      destruct (HBC name ltac:(lia) Hc4) as (Bn & Cn). destruct (HBC body ltac:(lia) Hc3) as (Bb & Cb).
+      destruct (Hspecs specs ltac:(lia) Hc0) as (Bs & Cs).
+      assert (E0 : specs_ok (map fp_spec specs) = true) by (destruct specs as [|[|] ?]; cbn in *; congruence).
+      rewrite B1, B2, Bn, Bb, Bs, E0, C1, C2, Cn, Cb, Cs. split; reflexivity. }
   destruct e; cbn [core_expr] in Hc; try discriminate; cbn [esize] in Hsz;
     try (repeat split; reflexivity).
   - (* EParen *)
     destruct (IH e ltac:(lia) Hc) as (A & B & C).
     cbn [full_paren core_expr wpx strip_spans strip_paren]. rewrite A, B, C. repeat split; reflexivity.
+  - (* EObject *)
+    destruct (Hobj o ltac:(lia) Hc) as (B & C).
+    assert (HB : forall k last, wpx k last (full_paren (EObject sp o)) = true).
+    { intros k last. cbn [full_paren wpx]. exact B. }
+    split; [apply (wp_core (S (esize (full_paren (EObject sp o)))) (full_paren (EObject sp o)) (Nat.lt_succ_diag_r _) 0%nat true (HB 0%nat true))|].
+    split; [exact HB|]. cbn [full_paren strip_spans strip_paren]. rewrite C. reflexivity.
   - (* EArray *)
     assert (Hi : forall x, In x items -> core_expr x = true ->
               core_expr (full_paren x) = true /\ wpx 0 true (full_paren x) = true /\
@@ -209,6 +283,13 @@ Proof.
   - (* EUnary *)
     destruct (IH e ltac:(lia) Hc) as (A & B & C).
     cbn [full_paren core_expr wpx strip_spans strip_paren andb]. rewrite A, !B, C. repeat split; reflexivity.
+  - (* EObjExt *)
+    apply andb_true_iff in Hc as [Hcx Hco].
+    destruct (IH e ltac:(lia) Hcx) as (A1 & B1 & C1). destruct (Hobj o ltac:(lia) Hco) as (B & C).
+    assert (HB : forall k last, wpx k last (full_paren (EObjExt sp e o obj_sp)) = true).
+    { intros k last. cbn [full_paren wpx]. rewrite B1, B. reflexivity. }
+    split; [apply (wp_core (S (esize (full_paren (EObjExt sp e o obj_sp)))) (full_paren (EObjExt sp e o obj_sp)) (Nat.lt_succ_diag_r _) 0%nat true (HB 0%nat true))|].
+    split; [exact HB|]. cbn [full_paren strip_spans strip_paren]. rewrite C1, C. reflexivity.
   - (* EFunc *)
     apply andb_true_iff in Hc as [Hcps Hcb].
     destruct (IH e ltac:(lia) Hcb) as (A1 & B1 & C1).
@@ -247,4 +328,17 @@ Proof.
   exists (strip_spans (full_paren e)). split.
   - apply parse_print_roundtrip_partial; [exact A|apply B].
   - exact C.
+Qed.
+
+(* ---- the full statements *)
+Theorem parse_print_roundtrip : forall e, Print.wp e = true ->
+  parse_tree spec_prec (print_tokens e) = Ok (strip_spans e).
+Proof. exact roundtrip. Qed.
+
+Theorem redundant_parens_equiv : forall e, Print.wp e = true ->
+  exists e', parse_tree spec_prec (print_tokens (full_paren e)) = Ok e' /\
+             strip_paren e' = strip_paren (strip_spans e).
+Proof.
+  intros e Hw. apply redundant_parens_partial.
+  apply (wp_core (S (esize e)) e ltac:(lia) 0%nat true Hw).
 Qed.
